@@ -322,8 +322,47 @@ def stage_oracle_quote(rep, rng, strings, lists, n):
                           'replay_hint': 'from bfg9000.shell import windows as w; w.join(ARGS); w.split(_)'},
                          classes=classify_quote_failure(args))
                 break
-    rep.stage('oracle:join->crt/split', cases=done, failures=bad)
-    return bad
+    # arguments made of several pieces (plain strings, quoted piece by piece, next to shell literals written as they
+    # are): the quoted regions then sit in the MIDDLE of an argument - "a b"=v, -I"C:\\my dir\\"x - and the argument
+    # every reader must deliver is the concatenation of the pieces
+    from bfg9000.safe_str import jbos, shell_literal
+    LIT = 'ABCxyz019=:,./-+_'
+    jdone = jbad = 0
+    for _ in range(max(40, n // 2)):
+        args, want = [], []
+        for _a in range(rng.randint(1, 3)):
+            pieces, text = [], ''
+            for _p in range(rng.randint(1, 4)):
+                if rng.random() < 0.5:
+                    t = ''.join(rng.choice(LIT) for _c in range(rng.randint(1, 4)))
+                    pieces.append(shell_literal(t))
+                else:
+                    t = rand_string(rng, None, CLASSES_DOM)
+                    if not in_domain(t):
+                        t = 'p q'
+                    pieces.append(t)
+                text += t
+            args.append(jbos(*pieces) if len(pieces) > 1 else pieces[0])
+            want.append(text)
+        if not all(in_domain(t) for t in want) or any(t == '' for t in want):
+            continue
+        jdone += 1
+        line = wshell.join(args)
+        rep.case('oj:' + repr(want) + line, True)
+        got = {('crt', dd): crt_parse(line, dd) for dd in (0, 1, 2)}
+        got['split'] = wshell.split(line)
+        for k, v in got.items():
+            if v != want:
+                jbad += 1
+                if jbad <= 10:
+                    rep.fail('arguments %r (built from several pieces) are written as %r, which %s reads back as %r' % (want, line, k, v),
+                             {'args': want, 'written': line, 'reader': str(k), 'delivered': v,
+                              'pieces': [[('lit' if isinstance(x, shell_literal) else 'str', getattr(x, 'string', x)) for x in
+                                          (a.bits if isinstance(a, jbos) else [a])] for a in args]},
+                             classes=classify_quote_failure(want))
+                break
+    rep.stage('oracle:join->crt/split', cases=done, failures=bad, multi_piece_cases=jdone, multi_piece_failures=jbad)
+    return bad + jbad
 
 
 # ----------------------------------------------------------------------------- UuidMap / Solution
